@@ -82,11 +82,11 @@ TIMING_CLAUSES = {"progress", "iteration_ends", "threads_exit", "buffered_produc
 PIPE_INVS = "TypeOK InOrder AtMostOnce Complete LookAhead AfterDrop TurnInv"
 
 
-def pipe_cfg(W, N, lens, fail="{}", hook="TRUE", drop="TRUE", cap=None, invs=PIPE_INVS, props="", spec="SPECIFICATION Spec"):
+def pipe_cfg(W, N, lens, fail="{}", hook="TRUE", drop="TRUE", cap=None, invs=PIPE_INVS, props="", spec="SPECIFICATION Spec", late="FALSE"):
     cap = W if cap is None else cap
-    return ("CONSTANTS W = %d N = %d Lens = %s Cap = %d Fail = %s HookOn = %s AllowDrop = %s\n%s\n"
+    return ("CONSTANTS W = %d N = %d Lens = %s Cap = %d Fail = %s HookOn = %s HookLate = %s AllowDrop = %s\n%s\n"
             "INVARIANTS %s\n%s\nCHECK_DEADLOCK FALSE\n"
-            % (W, N, lens, cap, fail, hook, drop, spec, invs, ("PROPERTIES " + props) if props else ""))
+            % (W, N, lens, cap, fail, hook, late, drop, spec, invs, ("PROPERTIES " + props) if props else ""))
 
 
 def pipe_paths(ctx, W, N, drop, label):
@@ -252,7 +252,7 @@ def c05(ctx):
     for (W, N) in ([(3, 3)] if q else [(3, 4), (4, 4)]):
         lens = "{" + ",".join(str(k) for k in range(N + 1)) + "}"
         vlib.mc(ctx, "Pipe", pipe_cfg(W, N, lens, drop="FALSE", props="Terminates"), name="Pipe-W%dN%d" % (W, N),
-                disabled_ok=("Drop",))
+                disabled_ok=("Drop", "InstallHook"))
     # W = 0: the un-threaded branch is a lazy map
     cases += [{"mode": "controlled", "W": 0, "N": n, "sched": ["c"] * k, "blocking": False, "drain": True}
               for n in range(0, 5) for k in (0, 2)]
@@ -262,6 +262,11 @@ def c05(ctx):
     vlib.harness(["gen", "pipe", ctx.seed, 600 if q else 6000, rnd])
     rc = [c for c in vlib.read_ndjson(rnd)]
     pipe_judge(ctx, rc, "B", C05_CLAUSES)
+    # relative processing speed: one very slow item while the consumer waits in next() - the stream must not end early
+    # (quick: 6.5 s, thorough: also 21 s; a consumer-side time-out below that is detected)
+    slow = [{"mode": "free", "W": w, "N": 4, "seed": 3, "slow": 0.0, "slow_item": 1, "slow_ms": ms}
+            for (w, ms) in ([(2, 6500)] if q else [(1, 6500), (2, 6500), (3, 21000)])]
+    pipe_judge(ctx, slow, "B-slow-item", C05_CLAUSES)
 
 
 def buffered_cfg(N, cap, drain="FALSE", props="StopsAfterDrop"):
@@ -365,12 +370,14 @@ def c09(ctx):
     for (W, N) in ([(2, 3)] if q else [(2, 4), (3, 4)]):
         lens = "{%d}" % N
         vlib.mc(ctx, "Pipe", pipe_cfg(W, N, lens, fail="{1}", hook="TRUE", drop="FALSE", invs="TypeOK InOrder AtMostOnce", props="NoWedge"),
-                name="Pipe-panic-hook-W%dN%d" % (W, N), disabled_ok=("Drop", "End"))
+                name="Pipe-panic-hook-W%dN%d" % (W, N), disabled_ok=("Drop", "End", "InstallHook"))
         vlib.mc(ctx, "Pipe", pipe_cfg(W, N, lens, fail="{1}", hook="FALSE", drop="FALSE", invs="TypeOK", props="NoWedge"),
                 name="Pipe-panic-nohook-W%dN%d" % (W, N), expect_violation="NoWedge", coverage=False)
+        vlib.mc(ctx, "Pipe", pipe_cfg(W, N, lens, fail="{1}", hook="TRUE", drop="FALSE", invs="TypeOK", props="NoWedge", late="TRUE"),
+                name="Pipe-panic-latehook-W%dN%d" % (W, N), expect_violation="NoWedge", coverage=False)
     # look-ahead bound is independent of the upstream length
     for N in ([4, 6] if q else [4, 6, 8]):
-        vlib.mc(ctx, "Pipe", pipe_cfg(2, N, "{%d}" % N, props="StopsAfterDrop"), name="Pipe-drop-W2N%d" % N)
+        vlib.mc(ctx, "Pipe", pipe_cfg(2, N, "{%d}" % N, props="StopsAfterDrop"), name="Pipe-drop-W2N%d" % N, disabled_ok=("InstallHook",))
     cases = []
     for (W, N) in ([(1, 2), (2, 2)] if q else [(1, 3), (2, 3), (3, 2)]):
         cases += pipe_paths(ctx, W, N, True, "drop-W%dN%d" % (W, N))
@@ -388,7 +395,8 @@ def c09(ctx):
     pipe_judge(ctx, vlib.read_ndjson(rnd), "B-pipe", C09_CLAUSES)
     vlib.harness(["gen", "buffered", ctx.seed + 11, 300 if q else 3000, rnd])
     buffered_judge(ctx, vlib.read_ndjson(rnd), "B-buffered", C09_CLAUSES)
-    combos = [(1, 4, 0), (2, 5, 2), (4, 6, 5)] if q else [(w, n, f) for w in (1, 2, 4) for n in (3, 8) for f in (0, n // 2, n - 1)]
+    # many threads: the hook must already be in place when the first worker starts
+    combos = [(1, 4, 0), (2, 5, 2), (4, 6, 5), (16, 64, 0), (32, 64, 0), (64, 200, 1)] if q else [(64, 300, 0), (48, 100, 0)] + [(w, n, f) for w in (1, 2, 4) for n in (3, 8) for f in (0, n // 2, n - 1)]
     child_panic_runs(ctx, combos)
 
 
